@@ -153,11 +153,31 @@ def _reorder(lines: List[str], f: FuncInfo) -> List[str]:
     return _alpha(sorted(lines, key=_shape), f)
 
 
+def _calls(lines: List[str]) -> List[str]:
+    """Multiset of the calls made by the normalised statements: 'callee(arg, kw=arg, ...)' with nested calls listed separately."""
+    out = []
+    for ln in lines:
+        try:
+            t = ast.parse(ln)
+        except SyntaxError:
+            continue
+        tests = {id(x) for n in ast.walk(t) if isinstance(n, (ast.If, ast.While, ast.IfExp)) for x in ast.walk(n.test)}
+        for n in ast.walk(t):
+            if isinstance(n, ast.Call) and id(n) not in tests:  # predicates inside guards are judged with the guards
+                out.append(ast.unparse(n))
+    return sorted(out)
+
+
 def _compare(r: RuleResult, what: str, fa: FuncInfo, fb: FuncInfo, sa: List[str], sb: List[str]) -> None:
     ok = sa == sb
     if not ok and len(sa) == len(sb):
         # independent statements in another order are not a difference
         ok = _reorder(sa, fa) == _reorder(sb, fb)
+    if not ok and _calls(sa) == _calls(sb):
+        # same calls with the same arguments, different statement structure (nested ifs, an equivalent guard spelled differently, ...):
+        # equivalence is not decided here - the guards themselves are judged by the rules that own them (OWN-WRITEBACK, GT-GATE, ...)
+        raise Undecided(f"{what}: the twins make the same calls with the same arguments but are structured differently; "
+                        f"equivalence of the two structures is not decided")
     r.ob(ok, {"pair": what, "statements compared": len(sa), "equal": ok})
     if not ok:
         diff = None
